@@ -167,7 +167,7 @@ def find_base_grid(chk, quick):
     cases = fails = 0
     first = None
     for um in (255, 65535):
-        mcs = [300, 301, 1000, 65535, 65536, 70000, 10**5, 10**6, 2**32 - 1, 2**32, 2**40, 2**53, 2**63]
+        mcs = [300, 301, 1000, 65535, 65536, 70000, 10**5, 10**6, 2**32 - 1, 2**32, 2**32 + 5000, 10**12, 2**40, 2**53, 2**63 - 1, 2**63]
         nrs = sorted(set([0, 1, 2, 15, 100, 200, 250, 253, 254, 1023, 30000, 60000, 65000, 65533, 65534, um - 1, um // 2]))
         if not quick:
             mcs += [2**k + d for k in range(9, 63, 3) for d in (-1, 0, 1)]
